@@ -841,7 +841,7 @@ def gen_goal_case(rng, nrng, SI, goal):
                 (m == 'extract_segment' and bc == 'infinite')
             if not ends:
                 now_bc = 'segment' if m == 'extract_segment' else bc
-                zero_S = m in ('enlarge_chi', 'subspace_expansion')
+                zero_S = m in ('enlarge_chi', 'subspace_expansion') or (m == 'add' and 'cutoff' in call[-1] and call[-1]['cutoff'] is None)
                 post, _ = follow_ups(mk, kinds_now, now_bc, SI, zero_S=zero_S, real=real, n=rng.randint(1, 2))
                 ops += post
             case = {'state': spec, 'ops': ops, 'want': {}, 'stream': 'options-' + bc, 'goal': list(goal)}
@@ -933,7 +933,6 @@ REFUSALS = [
     ('infinite', {'op': 'call', 'method': 'enlarge_mps_unit_cell', 'args': [1]}, 'enlarge_mps_unit_cell(factor): the number of sites is INCREASED to factor*L'),
     ('infinite', {'op': 'call', 'method': 'enlarge_mps_unit_cell', 'args': [1.5]}, 'enlarge_mps_unit_cell(factor : int)'),
     ('segment', {'op': 'call', 'method': 'enlarge_mps_unit_cell', 'args': [2]}, 'enlarge_mps_unit_cell: "Repeat the unit cell for infinite MPS boundary conditions"'),
-    ('finite', {'op': 'swap_sites', 'i': 0, 'swap_op': 'fermionic'}, 'swap_sites(swap_op): None | auto | autoInv | Array'),
     ('finite', {'op': 'compress', 'method': 'exact', 'trunc': {'chi_max': 10}}, "compress: compression_method 'SVD' | 'variational'"),
     ('finite', {'op': 'call', 'method': 'enlarge_chi', 'args': [[0, 1]]}, 'enlarge_chi(extra_legs): length L+1 for finite'),
     ('finite', {'op': 'call', 'method': 'apply_product_op', 'args': [['Id', 'Id', 'Id', 'Id', 'Id', 'Id', 'Id']]}, 'apply_product_op: len(ops) has to divide L'),
